@@ -117,6 +117,16 @@ func initialStates() []state {
 	add("nested-list-of-messages", ns, T(fra, pbref.ListOf(fra, S1("i", i32(1)), S1("s", str("z")), S1()), ftail, str("t")))
 	add("nested-strmap-of-messages", ns, T(fma, pbref.MapOf(fma).Put(str("k"), S1("i", i32(1), "pl", ints(pl, 1, 2))).Put(str("j"), S1("s", str("v")))))
 	add("nested-intmap-of-messages", ns, T(fmi, pbref.MapOf(fmi).Put(i32(5), S1("s", str("v"), "sm", pbref.MapOf(sm).Put(str("k"), i32(1)))), fx, i32(2)))
+	// map ENTRIES at the 1->2 byte length-prefix boundary that are not the first entry on the wire: entry "k" has a
+	// payload of 127 bytes (2+1+2+122), entry "m" of 128; growing / shrinking their values by one byte changes the
+	// width of the entry's own prefix (added after seed C10-6)
+	{
+		ms := pbref.ProgMaps(pbref.KString)
+		fss := ms.Root.ByName("m_string_string")
+		add("maps-string-entry-len127+128", ms, pbref.MsgVal(ms.Root).Set(fss, pbref.MapOf(fss).Put(str("a"), str("v")).Put(str("k"), str(strings.Repeat("e", 122))).Put(str("m"), str(strings.Repeat("f", 123)))))
+	}
+	// the same one level down: entry 5 of map<int32,Sub1> is 127 bytes (1+1+1+1+123), entry 9 is 128
+	add("nested-intmap-entry-len127+128", ns, T(fmi, pbref.MapOf(fmi).Put(i32(1), S1("i", i32(1))).Put(i32(5), S1("s", str(strings.Repeat("g", 121)))).Put(i32(9), S1("s", str(strings.Repeat("h", 122)))), fx, i32(2)))
 	add("nested-recursive-chain", ns, T(fr, R("v", i32(1), "next", R("v", i32(2), "next", R("v", i32(3))))))
 	add("nested-recursive-list", ns, T(fr, R("kids", pbref.ListOf(rec.ByName("kids"), R("v", i32(1)), R("v", i32(2)))), fe, pbref.MsgVal(fe.Msg)))
 	add("nested-empty-messages", ns, T(fa, S1(), fe, pbref.MsgVal(fe.Msg), fx, i32(3)))
